@@ -252,6 +252,28 @@ def run_case(ctx, case):
         b_other = (P.rng_for("c12reuse", case["seed"]).standard_normal(bb.shape) * max(float(np.abs(bb).max()), 1e-300)).astype(bb.dtype)
         reuse_checks(ctx, lambda: inv(cola.PSD(cola.ops.Dense(M)), CG(tol=case["tol"], max_iters=case["max_iters"], x0=x0m_, P=Pop)), bb, b_other,
                      "inv(CG)", preds, rel_tol=max(1e-6, 100 * case["tol"]))
+    if case["via"] == "inv" and case["precond"] in ("none", "jacobi") and case["cond"] <= 1e3 and float(case.get("opscale", 1.0)) == 1.0 and n <= 60:
+        # views of the lazy inverse obtained through CG (run to convergence: a truncated run is not a linear map, so only the
+        # converged operator has a transpose): inv(A, CG).T @ b solves A^T x = b, .H @ b solves A^H x = b, b @ inv(A, CG) is the
+        # left solve - on complex Hermitian A the transposed system is the conjugated one
+        from cola.linalg import CG, inv
+        Av = ctx.call(inv, cola.PSD(cola.ops.Dense(M)), CG(tol=1e-13, max_iters=40 * n + 100))
+        bw_ = np.asarray(b).astype(complex if (np.iscomplexobj(M) or np.iscomplexobj(b)) else float)
+        Mw_ = M.astype(bw_.dtype)
+        if not is_err(Av) and float(np.linalg.norm(bw_)) > 0:
+            for nm, f, want in (("T", lambda: Av.T @ b, np.linalg.solve(Mw_.T, bw_)), ("H", lambda: Av.H @ b, np.linalg.solve(Mw_.conj().T, bw_)),
+                                ("left", lambda: b.T @ Av, np.linalg.solve(Mw_.T, bw_).T), ("T-ctor", lambda: cola.ops.Transpose(Av) @ b, np.linalg.solve(Mw_.T, bw_))):
+                g = ctx.call(f)
+                if is_err(g):
+                    ctx.check("views-of-the-lazy-inverse-solve-the-transposed-system", False, site="inv(CG)", preds=dict(preds, view=nm), detail={"error": repr(g)})
+                    continue
+                g = np.asarray(g)
+                colw = np.linalg.norm(want.reshape(n, -1) if nm != "left" else want.T.reshape(n, -1), axis=0)
+                colg = np.linalg.norm((g.reshape(n, -1) if nm != "left" else g.T.reshape(n, -1)) - (want.reshape(n, -1) if nm != "left" else want.T.reshape(n, -1)), axis=0) if g.shape == want.shape else np.inf
+                nz = colw > 0
+                err = float(np.max(colg[nz] / colw[nz])) if g.shape == want.shape and nz.any() and np.all(np.isfinite(g)) else (0.0 if g.shape == want.shape and np.all(np.isfinite(g)) else np.inf)
+                ctx.check("views-of-the-lazy-inverse-solve-the-transposed-system", bool(err <= 1e-6 * max(case["cond"], 1.0)), site="inv(CG)", preds=dict(preds, view=nm),
+                          detail={"rel_err": err, "cond": case["cond"], "shape": list(g.shape)})
     if rec is None:
         ctx.inconclusive.append("loop-state tap saw no CG loop")
         return
